@@ -168,6 +168,25 @@ impl<'a> Sim<'a> {
             self.world.borrow_mut().current = Some(h);
 
             World::enter(&self.world, || {
+                // A crash is abortive. Reset every stream the host has open
+                // before its tasks are dropped: the peers (readers and
+                // writers parked on the flow-control window alike) learn of
+                // it at once instead of waiting for segments that reach a
+                // host that is down, and the tasks' destructors find no
+                // socket left to close gracefully.
+                World::current(|world| {
+                    for pair in world.current_host_mut().tcp.stream_pairs() {
+                        if !crate::host::is_same(pair.local, pair.remote) {
+                            let _ = world.send_message(
+                                pair.local,
+                                pair.remote,
+                                crate::Protocol::Tcp(crate::Segment::Rst),
+                            );
+                        }
+                        world.current_host_mut().tcp.reset_stream(pair);
+                    }
+                });
+
                 rt.crash();
 
                 // Walk the per-subsystem crash hooks in lock order.
